@@ -112,6 +112,12 @@ theorem packages_loaded : Facts.determinismPackagesLoaded = true := by decide
 /-- every write to process-local keeper state is one of the rebuilt ones -/
 theorem mem_writes_rebuilt : Facts.keeperFieldWriters.all (fun s => rebuiltWriters.contains s) = true := by decide
 
+/-- the only container a keeper holds outside the store is the EVM keeper's precompile map, which construction fills
+    (`WithPrecompiles`) and nothing changes afterwards (`mem_writes_rebuilt`, `no_dynamic_extensions`); a keeper
+    field that can accumulate data in memory — a cache, a ring of recent values, a counter behind a pointer — is
+    state a restarted node does not have -/
+theorem keepers_hold_no_memory : Facts.keeperMemFields = [("x/evm/keeper::Keeper.precompiles", "map")] := by decide
+
 /-- extensions are never registered after construction: the only function that calls `AddEVMExtensions` is the
     ERC20 registration helper, and nothing calls that -/
 theorem no_dynamic_extensions :
